@@ -1491,6 +1491,27 @@ PROPS["C11"]["assumptions"] = list(PROPS["C11"]["assumptions"]) + [
     "(end inset, padding box of negative extent) stays as the side condition inside Spec.endOk true",
 ]
 
+# Tier T for grid item placement (src/compute/grid/{placement,implicit_grid}.rs, types/cell_occupancy.rs + the helpers of geometry.rs,
+# style/grid.rs, grid_track_counts.rs they call): extract/src/placement.rs (statement level: mutation as shadowing, `for` as Occ.forM,
+# `loop` as Occ.loop under the model's fuel, search loops as List.all, `&mut self` methods return the new self) on top of the expression
+# translator of gridint.rs -> Generated/Placement.lean; Props/TiePlacement.lean proves generated = Model/GridPlacement.lean for all arguments.
+TIE_PLACEMENT = ["TiePlacement." + t for t in (
+    "other_axis_eq is_dense_eq primary_axis_eq in_both_get_eq grid_placement_eq from_raw_eq oz_line_range_to_track_range_eq "
+    "track_counts_eq with_track_counts_eq track_area_is_unoccupied_eq line_area_is_unoccupied_eq last_of_type_eq "
+    "place_definite_grid_item_eq loop_search_secondary place_definite_secondary_axis_item_eq loop_search_fixed_primary "
+    "loop_search_both place_indefinitely_positioned_item_eq child_min_line_max_line_span_eq "
+    "is_area_in_range_eq is_area_in_range_old_witness").split()]
+TIE_PLACEMENT_TRUSTED = ("Generated/Placement.lean is produced by verif/extract (extract/src/placement.rs + gridint.rs, my code) from the Rust source on "
+                         "every run: machine integers are Int with every arithmetic operation and `as` cast checked in Outcome (a lossy cast is "
+                         "`.overflow`, stricter than Rust; an index written `e as usize` directly inside Grid::get/get_mut/iter_row/iter_col is "
+                         "passed uncast and a negative value is out of bounds); the `grid` crate's Grid is the row-major list of "
+                         "Model/GridPlacement.lean (vocabulary Occ.* in Model/PlacementOps.lean: gridNew, gridFromVec, unwrap, rposition, forM, "
+                         "loop); NodeId, the item style and the two alignments passed on to GridItem::new_with_placement_style_and_order are not "
+                         "modelled (a GridItem is its source order and its two spans)")
+for _pid in ("C08", "C03"):
+    _add_tie(_pid, "TaffyVerif.Props.TiePlacement", TIE_PLACEMENT)
+    PROPS[_pid]["trusted_base"] = list(PROPS[_pid].get("trusted_base", [])) + [TIE_PLACEMENT_TRUSTED]
+
 HOOK_COMMITS = [
     "5207efe",
     "79decb2",
